@@ -119,6 +119,50 @@ def len_guard(b, bi, idx_op, container_op, strict):
     return bool(edges) and b.edges_dominate(edges, bi)
 
 
+def max_guard(b, bi, idx_op, container_op):
+    """`v[i]` where v = vec![..; N] in this function, i is drawn from a collection C, and the function leaves with an error unless
+    max(C) < N (the comparison is against the very operand that sized v)"""
+    co = b.operand_origin(container_op) if container_op is not None else None
+    if co is None:
+        return False
+    d = b.single_def(co[0])
+    if not (d and d[1] == "t" and norm_fn(d[2].get("fn")) == "alloc::vec::from_elem"):
+        return False
+    n_op = d[2]["args"][1]
+    n_origin, n_const = b.operand_origin(n_op), const_of(b, n_op)
+    ipv = b.provenance(idx_op, through_calls=True)
+    edges = []
+    for sb, sw in b.switches():
+        src = b.bool_operand_source(sw["op"])
+        if not src:
+            continue
+        if src["kind"] == "bin" and src["op"] in ("Lt", "Le", "Gt", "Ge"):
+            for (x, y, flip) in ((src["o"][0], src["o"][1], False), (src["o"][1], src["o"][0], True)):
+                xp = b.provenance(x, through_calls=True)
+                if not any(norm_fn(c) == "core::iter::traits::iterator::Iterator::max" for c in xp.callees()):
+                    continue
+                if not (xp.locals & ipv.locals - {0}):
+                    continue
+                yo, yc = b.operand_origin(y), const_of(b, y)
+                if not ((yo is not None and yo == n_origin) or (yc is not None and yc == n_const)):
+                    continue
+                op = src["op"]
+                if flip:
+                    op = {"Lt": "Gt", "Le": "Ge", "Gt": "Lt", "Ge": "Le"}[op]
+                for truth in (True, False):
+                    rel = op if truth else {"Lt": "Ge", "Le": "Gt", "Gt": "Le", "Ge": "Lt"}[op]
+                    if rel == "Lt":
+                        operand_value = (not truth) if src["negated"] else truth
+                        edges.append(rules.bool_switch_edge(b, sb, operand_value))
+        elif src["kind"] == "discr" and util.base_ty(src.get("ty") or "") == "core::option::Option":
+            dd = b.single_def(src["origin"][0])
+            if dd and dd[1] == "t" and norm_fn(dd[2].get("fn")) == "core::iter::traits::iterator::Iterator::max":
+                none = [tb for v, tb in sw["targets"] if (src["vars"] or {}).get(v) == "None"]
+                edges.append((sb, none[0] if none else sw["otherwise"]))
+    has_cmp = any(True for e in edges)
+    return has_cmp and len(edges) >= 2 and b.edges_dominate(edges, bi)
+
+
 def constructs(f, p):
     """panic-capable constructs of one function: [(block, kind, detail, span, terminator)]"""
     r = f.fns[p]
@@ -183,7 +227,11 @@ def discharge(f, b, bi, kind, t):
             return "full range"
         # x[..n] / x[n..] / x[a..b] / x[i]
         if aty == "usize":
-            return "index < len tested on every path" if len_guard(b, bi, arg, recv, True) else None
+            if len_guard(b, bi, arg, recv, True):
+                return "index < len tested on every path"
+            if max_guard(b, bi, arg, recv):
+                return "the vector was sized with N and the function leaves unless the maximum of the indexing collection is < N"
+            return None
         pl = util.op_place(arg)
         d = b.single_def(pl["l"]) if pl is not None and not pl["p"] else None
         if d and d[1] != "t" and d[2]["rv"]["k"] == "Agg":
